@@ -236,6 +236,7 @@ func runC06(c *core.Ctx) {
 		return true
 	})
 	c06Typed(c)
+	c06Unplaceable(c)
 	c06BadArguments(c, s, graphs[0])
 	c.R.Bound = fmt.Sprintf("documents within %d mutations of the bases; single faults (thorough: + all pairs for logs <= 10); leaf lists of four behind typed Go slices and []interface{} x all 16 sets of failing positions x 3 ways of resolving", k)
 	if !completed {
@@ -535,6 +536,124 @@ func c06BadArguments(c *core.Ctx, s *world.Schema, g *world.Graph) {
 					c.Violation("err-diff", attrs, detail)
 				} else {
 					c.Outcome("bad-argument-agree")
+				}
+			}
+		}
+	}
+}
+
+// ---- values that cannot be completed: behind a UNION-typed position (single field, list element) the application hands back a
+// Go value whose type is no member of the union. That position cannot be given an object of the union: one error addressing it,
+// null there, the neighbours as they are - whichever members were bound before, by registration or by the values that passed
+// earlier (every list of <= 3 values over the three members and the outsider, cold and registered roots).
+
+type C06UA struct{ X int }
+type C06UB struct{ X int }
+type C06UC struct{ X int }
+type C06UX struct{ X int }
+type c06UQuery struct {
+	Mine []interface{}
+	Lost interface{}
+}
+type c06URoot struct{ Query *c06UQuery }
+
+func c06Unplaceable(c *core.Ctx) {
+	const sdl = "union U = C06UA | C06UB | C06UC\ntype C06UA { x: Int }\ntype C06UB { x: Int }\ntype C06UC { x: Int }\ntype Query { mine: [U] lost: U }\n"
+	const query = "{ mine { __typename ... on C06UA { x } ... on C06UB { x } ... on C06UC { x } } lost { __typename } }"
+	mk := []func() interface{}{
+		func() interface{} { return &C06UA{1} }, func() interface{} { return &C06UB{2} }, func() interface{} { return &C06UC{3} }, func() interface{} { return &C06UX{9} },
+	}
+	wantOf := []interface{}{
+		map[string]interface{}{"__typename": "C06UA", "x": 1}, map[string]interface{}{"__typename": "C06UB", "x": 2}, map[string]interface{}{"__typename": "C06UC", "x": 3}, nil,
+	}
+	var lists [][]int
+	for n := 1; n <= 3; n++ {
+		cur := make([]int, n)
+		var rec func(i int)
+		rec = func(i int) {
+			if i == n {
+				lists = append(lists, append([]int{}, cur...))
+				return
+			}
+			for v := 0; v < 4; v++ {
+				cur[i] = v
+				rec(i + 1)
+			}
+		}
+		rec(0)
+	}
+	for li, l := range lists {
+		for ri, reg := range []string{"cold", "registered"} {
+			for lost := 0; lost < 2; lost++ { // the single field holds the outsider / the first member
+				if !c.OwnsIdx(1<<48 + int64(li*4+ri*2+lost)) {
+					continue
+				}
+				c.Eval()
+				c.R.Distinct++
+				q := &c06UQuery{}
+				var wantMine []interface{}
+				var wantPaths []string
+				for i, v := range l {
+					q.Mine = append(q.Mine, mk[v]())
+					wantMine = append(wantMine, wantOf[v])
+					if v == 3 {
+						wantPaths = append(wantPaths, fmt.Sprintf("[mine %d]", i))
+						c.Nontrivial()
+					}
+				}
+				want := map[string]interface{}{"mine": wantMine}
+				if lost == 0 {
+					q.Lost, want["lost"] = mk[3](), nil
+					wantPaths = append(wantPaths, "[lost]")
+				} else {
+					q.Lost, want["lost"] = mk[0](), map[string]interface{}{"__typename": "C06UA"}
+				}
+				root := ggql.NewRoot(&c06URoot{Query: q})
+				if err := root.ParseString(sdl); err != nil {
+					panic(core.EngineError{Msg: "C06 union schema refused: " + err.Error()})
+				}
+				var res map[string]interface{}
+				pi := core.Safe(func() {
+					if reg == "registered" {
+						for _, rt := range []struct {
+							v interface{}
+							n string
+						}{{&C06UA{}, "C06UA"}, {&C06UB{}, "C06UB"}, {&C06UC{}, "C06UC"}} {
+							if err := root.RegisterType(rt.v, rt.n); err != nil {
+								panic(core.EngineError{Msg: "C06 union registration refused: " + err.Error()})
+							}
+						}
+					}
+					res = root.ResolveString(query, "", nil)
+				})
+				detail := map[string]interface{}{"sdl": sdl, "query": query, "list": l, "binding": reg, "response": res, "want_data": want, "want_error_paths": wantPaths}
+				attrs := map[string]string{"part": "value-of-no-member", "binding": reg}
+				if pi != nil {
+					detail["panic"] = pi.Value
+					c.Violation("panic", map[string]string{"site": pi.Site, "class": pi.Class, "part": "value-of-no-member"}, detail)
+					continue
+				}
+				var paths []string
+				if el, ok := res["errors"].([]interface{}); ok {
+					for _, e := range el {
+						if m, ok := e.(map[string]interface{}); ok {
+							paths = append(paths, fmt.Sprint(m["path"]))
+						}
+					}
+				}
+				sort.Strings(paths)
+				sort.Strings(wantPaths)
+				switch {
+				case world.Diff(world.Canon(want), world.Canon(res["data"]), "") != "":
+					detail["diff"] = world.Diff(world.Canon(want), world.Canon(res["data"]), "")
+					c.Outcome("no-member-data-diff")
+					c.Violation("data-diff", attrs, detail)
+				case strings.Join(paths, " ") != strings.Join(wantPaths, " "):
+					detail["diff"] = fmt.Sprintf("error paths %v, want %v", paths, wantPaths)
+					c.Outcome("no-member-error-diff")
+					c.Violation("err-diff", attrs, detail)
+				default:
+					c.Outcome("no-member-agree")
 				}
 			}
 		}
